@@ -999,7 +999,8 @@ HCPseek(accrec_t *access_rec, int32 offset, int origin)
         HGOTO_ERROR(DFE_RANGE, FAIL);
 
     info = (compinfo_t *)access_rec->special_info;
-    if ((ret_value = (*(info->minfo.model_funcs.seek))(access_rec, offset, origin)) == FAIL)
+    /* offset is absolute from here on: the model and coder layers must not apply the origin again */
+    if ((ret_value = (*(info->minfo.model_funcs.seek))(access_rec, offset, DF_START)) == FAIL)
         HGOTO_ERROR(DFE_MODEL, FAIL);
 
     /* set the offset */
